@@ -31,7 +31,27 @@ def program_for(s, pos, raw_ws=False):
     if pos == "fnbody":
         return ({"x.ms": f"f = fn(p: str) -> str {{\n\treturn p + {lit}\n}}\nprint f(\"<\") + \">\"\n"}, "x.ms",
                 "<" + s + ">\n")
+    if pos.startswith("split-"):
+        # TWO literals in one program: the string is cut after its first character; both parts are arguments of their own
+        a, b = s[:1], s[1:]
+        la, lb = strlit.literal(a, raw_ws), strlit.literal(b, raw_ws)
+        if pos == "split-print":
+            return {"x.ms": f"print {la}\nprint {lb}\nprint \"end\"\n"}, "x.ms", a + "\n" + b + "\nend\n"
+        if pos == "split-fns":
+            return ({"x.ms": f"f = fn() -> str {{\n\treturn {la}\n}}\ng = fn() -> str {{\n\treturn {lb}\n}}\nprint \"<\" + f() + \"|\" + g() + \">\"\n"}, "x.ms",
+                    "<" + a + "|" + b + ">\n")
+        if pos == "split-mapkv":
+            return ({"x.ms": f"m = map[str, str]\nm[{la}] = {lb}\nprint m\nprint m[{la}]\n"}, "x.ms", '{"' + a + '": "' + b + '"}\n' + b + "\n")
+        if pos == "split-concat":
+            return {"x.ms": f"print {la} + {lb} + {la}\n"}, "x.ms", a + b + a + "\n"
     raise ValueError(pos)
+
+
+SPLIT_POSITIONS = ["split-print", "split-fns", "split-mapkv", "split-concat"]
+
+
+def split_ok(s):
+    return len(s) >= 2 and strlit.expressible(s[:1]) and strlit.expressible(s[1:])
 
 
 # (d) stale outputs: a directory in which an earlier revision of the program has already been compiled (or run).  Programs of
@@ -84,6 +104,7 @@ class C04(Check):
         from ..lang import gencorpus
         ls = [("L0-directory-names", [("dir", i) for i in range(len(DIRNAMES))]),
               ("L0-strings<=2-all-positions", list(strings(0, 2, POSITIONS))),
+              ("L0s-two-literals-in-one-program(strings-of-length-2-cut-in-two)", [c for c in strings(2, 2, SPLIT_POSITIONS) if split_ok(strlit.decode(c[1]))]),
               ("L0c-stale-outputs-of-an-earlier-revision", [("stale", a, b, q) for a in range(len(STALE_PROGS)) for b in range(len(STALE_PROGS))
                                                             if a != b for q in range(len(STALE_SEQS))]),
               ("L1-examples", ex),
@@ -92,6 +113,7 @@ class C04(Check):
               ("L3-generated-corpus", [("gen", name) for name in gencorpus.names(tier)]),
               ("L4-strings=3-print+import", strings(3, 3, ["print", "import"]))]
         if n >= 4:
+            ls.append(("L5s-two-literals-in-one-program(strings-of-length-3)", (c for c in strings(3, 3, SPLIT_POSITIONS) if split_ok(strlit.decode(c[1])))))
             ls.append(("L5-strings=3-other-positions", strings(3, 3, ["list", "mapkey", "dead", "fnbody"])))
             ls.append(("L6-strings=4-print", strings(4, 4, ["print"])))
             ls.append(("L7-strings=4-import", strings(4, 4, ["import"])))
